@@ -30,6 +30,33 @@ def funnel_stop_job(tag, n_quick=1200, n_thorough=40000):
                    "destination / the DLQ but not acknowledged before the source was torn down, or acknowledged after the teardown), or the stop "
                    "does not complete (Lean monitor clauses C06 on the recorded trace)"}
 
+def tree_jobs(n_quick=2500, n_thorough=60000):
+    """the tie between the hypotheses of the monitor-soundness theorems (Fan1 tree, source root, distinct ids) and the trees the
+    arch-v2 service really builds (Props/TreeShape, Props/TreeBuilt, Facts/TreeShape)"""
+    return [
+        {"harness": "h_tree", "comp": "treeshape", "n_quick": n_quick, "n_thorough": n_thorough,
+         "why": "the task trees (worker.FirstTask of every worker, walked through Next) that the REAL lifecycle-poc buildRunnablePipeline / "
+                "buildSharedTail link for a pipeline configuration, or the class of its error exit, differ from the Lean model "
+                "(Model/TreeBuild: buildWorkers / buildSharedTail) about which Fan1 / source-root / distinct-ids / destinations are proved "
+                "(Props/TreeShape, Props/TreeBuilt) - the soundness of the C01/C04/C05/C07/C08 trace monitor is proved for exactly those trees"},
+        {"harness": "h_tree", "comp": "appendtoend", "n_quick": n_quick * 2, "n_thorough": n_thorough * 2,
+         "why": "the real funnel.(*TaskNode).AppendToEnd on an arbitrary small tree (chains, receivers with several Next where it must refuse "
+                "and leave the receiver untouched) differs from the model function appendToEnd"},
+    ]
+
+TREE_MODULES = ["ConduitModel.Props.TreeShape", "ConduitModel.Props.TreeBuilt", "ConduitModel.Facts.TreeShape"]
+
+TREE_RULE = (" || treeshape: pipeline configurations (1-3 sources with 0-2 connector processors, 0-3 pipeline processors, 1-4 destinations with "
+             "0-2 connector processors, ConnectorIDs order shuffled; 1 in 4 degenerate: no source / no destination / unknown connector or "
+             "processor id / a processor or connector listed twice / a connector id equal to a processor id / malformed line) through the real "
+             "service builder, and direct buildSharedTail calls (0-4 branches, empty branches, 0-3 processors); appendtoend: random trees of "
+             "depth <= 5 (half of them chains) + 0-3 trees to append; non-trivial = a fan-out was built, a build was refused, the recursion or "
+             "the refusal of AppendToEnd was exercised")
+
+TREE_ASSUME = ["treeshape: connector plugins, the processor registry and the pipeline store are fakes that a build never calls into; connector "
+               "and processor instances live in the real connector.Service / processor.Service (in-memory database); buildDLQ is assumed not to fail",
+               "the task-tree theorems identify a task with its id: connector and processor ids are natural numbers in the model, strings in the code"]
+
 FUNNEL_RULE = ("funnel: task tree (0-3 processors, 1-3 destination branches, optional branch processor), DLQ window config, 1-3 source "
                "batches, and plugin replies generated reactively per call (pass/modify/filter/error/split/nil, fewer/more/none; "
                "destination acks partitioned into several responses with errors, wrong/extra/out-of-order/short/empty/error responses), "
